@@ -5,7 +5,7 @@
 From Coq Require Import Reals ZArith Bool List.
 From Coquelicot Require Import Coquelicot.
 From ADV Require Import Base.Num C14.ER C14.Model C14.VModel C14.Spec C14.Corr.
-From ADV Require C14.ProofsCont C14.ProofsDisc C14.ProofsNorm C14.ProofsCdf C14.ProofsCdf2 C14.ProofsVec C14.ProofsRegress.
+From ADV Require C14.ProofsCont C14.ProofsDisc C14.ProofsNorm C14.ProofsCdf C14.ProofsCdf2 C14.ProofsNorm2 C14.ProofsVec C14.ProofsRegress.
 Import ProofsVec (mvt_pdf, mvn_pdf, student_pdf).
 Import ListNotations.
 Open Scope R_scope.
@@ -273,6 +273,26 @@ Proof. exact ProofsVec.iid_anydim_quirk. Qed.
 Theorem id_formula :
   forall (inners : list (R -> res)) (xs gs : list R), length xs = length inners -> Forall2 (fun (p : (R -> res) * R) (v : R) => fst p (snd p) = Val (Fin v)) (combine inners xs) gs -> id_logpdf inners xs = Val (Fin (fold_left Rplus gs 0)).
 Proof. exact ProofsVec.id_formula. Qed.
+
+Theorem laplace_limits :
+  forall mu sigma : R, laplace_valid mu sigma -> is_lim (laplace_cdf_spec mu sigma) m_infty 0 /\ is_lim (laplace_cdf_spec mu sigma) p_infty 1.
+Proof. exact ProofsNorm2.laplace_limits. Qed.
+
+Theorem pareto_cdf_derive :
+  forall lambda kappa x : R, 0 < lambda -> 0 < x -> is_derive (pareto_cdf_spec lambda kappa) x (pareto_pdf lambda kappa x).
+Proof. exact ProofsNorm2.pareto_cdf_derive. Qed.
+
+Theorem pareto_norm :
+  forall lambda kappa : R, pareto_valid lambda kappa -> (forall b : R, lambda <= b -> is_RInt (pareto_pdf lambda kappa) lambda b (pareto_cdf_spec lambda kappa b)) /\ is_lim (pareto_cdf_spec lambda kappa) p_infty 1.
+Proof. exact ProofsNorm2.pareto_norm. Qed.
+
+Theorem powerlaw_cdf_derive :
+  forall alpha xmin x : R, 0 < xmin -> 0 < x -> is_derive (powerlaw_cdf_spec alpha xmin) x (powerlaw_pdf alpha xmin x).
+Proof. exact ProofsNorm2.powerlaw_cdf_derive. Qed.
+
+Theorem powerlaw_norm :
+  forall alpha xmin : R, powerlaw_valid alpha xmin -> (forall b : R, xmin <= b -> is_RInt (powerlaw_pdf alpha xmin) xmin b (powerlaw_cdf_spec alpha xmin b)) /\ is_lim (powerlaw_cdf_spec alpha xmin) p_infty 1.
+Proof. exact ProofsNorm2.powerlaw_norm. Qed.
 
 Theorem laplace_cdf_regress :
   forall (lgam lerfc : R -> R) (gamP : R -> R -> R), agrees (eval lgam lerfc gamP FLaplace LogCdf [0; 1] [] 0) (OVal (- (6931 / 10000)) (1 / 1000)) /\ agrees (eval lgam lerfc gamP FLaplace Cdf [0; 1] [] 0) (OVal (1 / 2) (1 / 1000)) /\ agrees (eval lgam lerfc gamP FLaplace Cdf [0; 1] [] 1) (OVal (8161 / 10000) (1 / 1000)) /\ agrees (eval lgam lerfc gamP FLaplace Ctor [0; -1] [] 0) OCtorErr.
